@@ -23,7 +23,7 @@ RULE = ('random netlists (1-4 inputs, 1-7 cells of NANGATE/SAED32/SAED90 with 1-
         'interconnects that are not all-zero although max(max(delvals)) == 0 included); the overlap stream (several '
         'outputs per input pin, duplicates) is model-vs-code only. distinct = (netlist, branchforks, SDF text); non-trivial = at '
         'least 3 entries and at least one non-zero ground-truth coordinate. '
-        'clause sdf-wave (timing data path, Props/C14Wave.lean): '
+        'clause sdf-wave (timing data path, Props/C14Wave.lean; hypotheses wfB/orderOKB/forksOKB/readsDrivenB/rawNonneg of its STA theorems evaluated by the driver on every compared case, tags hyp:sdfwave:*): '
         'netlists of cells WaveSim schedules (1-4 inputs, one output) x SDF texts with non-negative values on the 1/8 grid x '
         '{strip_forks} x c_caps 16/32 x three lanes with the three data sets x random multi-transition stimuli: real '
         'WaveSim(c, delays=df.iopaths(c, tlib) + df.interconnects(c, tlib)) against the composition of the models (driver sdfwave: '
@@ -1074,6 +1074,27 @@ def gen_wave_case(rng, mode, notop=False):
     return case
 
 
+def wave_hyps(ck, case):
+    """hypotheses of C14Wave.sdf_sta_window / sdf_path_window / sdf_text_sta_window (and of every theorem there that goes through
+    `simopsMap`) evaluated by the Lean driver on the REAL case (audit-2 finding 10): Net.wfB, orderOKB, forksOKB (when stripping),
+    readsDrivenB on the real circuit and its real topological order (driver `simopscert`, through common.allcirc_hyp) and
+    rawNonneg on the model's reading of the real SDF text (driver `sdfwavehyp`); `4 <= capsMin` is fixed by the harness
+    (c_caps_min = 4). The sdf-wave generator promises scheduled cells and values >= 0, so a case outside is a broken tie."""
+    tags = []
+    t = common.allcirc_hyp(ck, parse_circuit(case), [case['strip']], 'C14 sdf-wave')
+    tags.append('hyp:sdfwave:net:' + t.split(':', 1)[1])
+    if t == 'allcirc-hyp:outside':
+        ck.broken_tie('hypotheses forksOKB / readsDrivenB of the C14Wave theorems on a generated sdf-wave case', t, inp=case)
+    try:
+        ans = common.run_driver([f"sdfwavehyp {pct(case['sdf'])}"])[0]
+    except Exception as ex:
+        ans = f'not-evaluated({type(ex).__name__})'
+    tags.append('hyp:sdfwave:' + ans.replace('=', ':'))
+    if ans != 'nonneg=true':
+        ck.broken_tie('hypothesis rawNonneg of the C14Wave theorems on a generated sdf-wave case', ans, inp=case)
+    return tags
+
+
 def sdf_wave(ck, n, mode):
     """clause sdf-wave: the real timing data path against the composition of the models"""
     for it in range(n):
@@ -1097,10 +1118,11 @@ def sdf_wave(ck, n, mode):
             for what, real, model in bad[:3]:
                 ck.broken_tie(f'timing data path (sdf-wave): {what}', f'real {real} != model {model}'[:400], inp=case)
             continue
+        hyp_tags = wave_hyps(ck, case)
         ck.case(key=('sdf-wave', case['verilog'], case['bf'], case['sdf'], case['strip'], case['sseed']),
                 nontrivial=info.get('nonzero_delays', 0) > 0 and info.get('transitions', 0) > 0,
                 sample={'tlib': case['tlib'], 'branchforks': case['bf'], 'strip_forks': case['strip'], 'verilog': case['verilog'], 'sdf': case['sdf'][:1200]},
-                tag=['stream:sdf-wave', f"sdf-wave:strip:{case['strip']}", f"sdf-wave:branchforks:{case['bf']}", f"sdf-wave:caps:{case['caps']}"]
+                tag=['stream:sdf-wave', f"sdf-wave:strip:{case['strip']}", f"sdf-wave:branchforks:{case['bf']}", f"sdf-wave:caps:{case['caps']}"] + hyp_tags
                     + [t for t in tags if t.startswith(('tlib:', 'posedge', 'negedge', 'interconnect', 'repeated'))])
         ck.hist['sdf-wave:compared'] += 1
         for what, real, model in bad[:3]:
